@@ -286,7 +286,7 @@ def run_case(case):
     return Result(sorted(labels), nontrivial, {"excluded": excluded})
 
 
-def run_sched(first, steps):
+def run_sched(first, steps, fn="net"):
     """One schedule: thread `first` runs `steps` source lines of its
     net_io_counters(nowrap=True) call, then the kernel step (all raw counters
     grow), then the other thread runs to completion, then the rest.  Returns
@@ -296,25 +296,31 @@ def run_sched(first, steps):
 
     psdir = os.path.dirname(psutil.__file__)
     w = World()
-    w.raw["net"] = {"lo": [100, 200, 300]}
+    dev = "lo" if fn == "net" else "sda"
+    w.raw[fn] = {dev: [100, 200, 300]}
     k = simk.Kernel()
     k.mkdir("/sys/block/sda")
     w.install(k)
-    versions = [dict(w.expected_raw("net"))]
+    versions = [dict(w.expected_raw(fn))]
     out = {}
 
+    def api():
+        if fn == "net":
+            return psutil.net_io_counters(pernic=True, nowrap=True)
+        return psutil.disk_io_counters(perdisk=True, nowrap=True)
+
     def kernel_step():
-        w.raw["net"]["lo"] = [x + 1000 for x in w.raw["net"]["lo"]]
+        w.raw[fn][dev] = [x + 1000 for x in w.raw[fn][dev]]
         w.install(k)
-        versions.append(dict(w.expected_raw("net")))
+        versions.append(dict(w.expected_raw(fn)))
 
     def caller(i):
         def run():
-            out[i] = psutil.net_io_counters(pernic=True, nowrap=True)
+            out[i] = api()
         return run
 
     with simk.installed(k):
-        psutil.net_io_counters(pernic=True, nowrap=True)   # establishes the cache
+        api()   # establishes the cache
         sched = detsched.Scheduler(psdir)
         C = psutil._common
         old_lock = C._wn.lock
@@ -338,18 +344,18 @@ def run_sched(first, steps):
             C._wn.lock = old_lock
             for mod, name, val in swapped:
                 setattr(mod, name, val)
-        final = psutil.net_io_counters(pernic=True, nowrap=True)
+        final = api()
     if errors:
         raise Violation("sched-exception", repr(errors))
-    valid = [tuple(v["lo"]) for v in versions]
-    bad = [i for i in (0, 1) if tuple(out[i]["lo"]) not in valid]
-    if tuple(final["lo"]) != valid[-1]:
+    valid = [tuple(v[dev]) for v in versions]
+    bad = [i for i in (0, 1) if tuple(out[i][dev]) not in valid]
+    if tuple(final[dev]) != valid[-1]:
         bad.append("final")
     if bad:
         raise Violation(
             "phantom-wrap",
-            f"schedule ({first}, {steps}): raw counters only grew {valid}; thread results "
-            f"{[tuple(out[i]['lo']) for i in (0, 1)]}, later call {tuple(final['lo'])}; "
+            f"{fn} schedule ({first}, {steps}): raw counters only grew {valid}; thread results "
+            f"{[tuple(out[i][dev]) for i in (0, 1)]}, later call {tuple(final[dev])}; "
             f"pre-emption sites {sites}")
 
 
@@ -361,17 +367,18 @@ def sched_tier(tier, seed, stats):
     ENUMERATED, not sampled."""
     bound = 40 if tier == "quick" else 160
     n = 0
-    for first in (0, 1):
+    for fn in ("net", "disk"):
+      for first in (0, 1):
         for steps in range(1, bound):
-            case = {"sched": [first, steps]}
+            case = {"sched": [first, steps, fn]}
             try:
-                run_sched(first, steps)
+                run_sched(first, steps, fn)
             except Violation as v:
                 stats.fail(case, v)
                 stats.notes["schedules_enumerated"] = n
                 return
             n += 1
-            stats.record(case, Result(["sched"], "sched|%d|%d" % (first, min(steps, 30))), keep_sample=(n == 1))
+            stats.record(case, Result(["sched"], "sched|%s|%d|%d" % (fn, first, min(steps, 30))), keep_sample=(n == 1))
     stats.notes["schedules_enumerated"] = n
 
 
